@@ -18,16 +18,21 @@ def scenarios(quick):
     return dict(
         mc=[(T.chain2(maxseq=1), 'Spec', dict(pq=6, rq=2, lq=3), {}),
             (T.chain2(maxseq=2, conn_ticks=2), 'SpecPrompt', {}, dict(kill, victims=['S', 'K'])),
-            (T.hidden(maxseq=0), 'SpecZL', {}, {})] +
+            (T.hidden(maxseq=0), 'SpecZL', {}, {}),
+            # a consumer in low-latency mode (sources_low_latency) whose publisher is killed and restarted
+            (T.lowlat(T.chain2(maxseq=2, conn_ticks=3), ['K']), 'SpecPrompt', {}, dict(max_faults=1, fault_kinds=['kill'], victims=['S']))] +
            ([] if quick else [
+               (T.lowlat(T.chain3(maxseq=2, conn_ticks=3), ['A', 'K']), 'SpecPrompt', {}, dict(max_faults=1, fault_kinds=['kill'], victims=['S'])),
                (T.chain2(maxseq=2), 'Spec', dict(pq=6, rq=2, lq=3), {}),
                (T.hidden(maxseq=1), 'SpecZL', {}, {}),
                (T.chain3(maxseq=1, conn_ticks=2), 'SpecPrompt', {}, dict(max_faults=1, fault_kinds=['kill'], victims=['S', 'A', 'K']))]),
-        mut=[(T.chain2(maxseq=2, conn_ticks=2), 'SpecPrompt', ['no_old_recv'], {}, dict(max_faults=1, fault_kinds=['kill'], victims=['S']))] +
+        mut=[(T.chain2(maxseq=2, conn_ticks=2), 'SpecPrompt', ['no_old_recv'], {}, dict(max_faults=1, fault_kinds=['kill'], victims=['S'])),
+             (T.lowlat(T.chain2(maxseq=3, conn_ticks=3), ['K']), 'SpecPrompt', ['ll_prev_stale'], {}, dict(max_faults=1, fault_kinds=['kill'], victims=['S']))] +
             ([] if quick else [
                 (T.chain3(maxseq=2, conn_ticks=2), 'SpecPrompt', ['no_old_send'], {}, dict(max_faults=1, fault_kinds=['kill'], victims=['A']))]),
         conf=[(T.chain3(maxseq=2, conn_ticks=3), 'SpecPrompt', 10 if quick else 150, 200, dict(max_faults=2, fault_kinds=['kill', 'drop'], victims=['S', 'A', 'K'])),
               (T.chain2(maxseq=2), 'Spec', 8 if quick else 100, 200, {}),
+              (T.lowlat(T.chain3(maxseq=2, conn_ticks=3), ['A', 'K']), 'SpecPrompt', 6 if quick else 80, 250, dict(max_faults=1, fault_kinds=['kill'], victims=['S', 'A'])),
               (T.hidden(maxseq=1), 'SpecPrompt', 6 if quick else 60, 150, {}),
               (T.prefix_topics(maxseq=1), 'SpecPrompt', 6 if quick else 60, 200, {}),
               (T.remap_main(maxseq=1), 'SpecPrompt', 4 if quick else 40, 200, {}),
@@ -40,7 +45,9 @@ def scenarios(quick):
               (T.chain2(maxseq=4), 8 if quick else 150, 500, 0.3, 0.0, False),
               (T.prefix_topics(maxseq=3), 6 if quick else 100, 600, 0.05, 0.0, False),
               (T.remap_main(maxseq=3), 6 if quick else 80, 500, 0.05, 0.0, False),
-              (T.join_late(maxseq=8), 8 if quick else 120, 1500, 0.03, 0.0, 'late')],
+              (T.join_late(maxseq=8), 8 if quick else 120, 1500, 0.03, 0.0, 'late'),
+              # two replicas with the same filter id on one output (told apart by the connection uid), lost messages
+              (T.same_id(T.tee(maxseq=4), ['A', 'B'], 'R'), 6 if quick else 100, 700, 0.05, 0.03, False)],
     )
 
 
@@ -200,6 +207,8 @@ def run(ctx):
         kw = dict(kw)
         sim = kw.pop('sim', None)
         eng.mutation_schedules(topo, spec, muts, invariant='C02', bounds=bounds, timeout=120 if ctx.quick else 900, sim=sim, **kw)
+    # the stored rejoin schedule (a relay that forgets an adopted id hands out frames of one id under another id)
+    eng.stored_schedules('C01_relay')
     for topo, spec, num, depth, kw in sc['conf']:
         eng.conformance(topo, spec, num, depth, **kw)
     # every transition of the 2-filter model replayed on the real code (prompt; thorough: free interleaving and kill/restart)
